@@ -23,7 +23,7 @@ ASSUMPTIONS = ["configuration of harness nodes is carried in one string scalar, 
 
 
 def examples(tier):
-    return 1500 if tier == "quick" else 20000
+    return 2500 if tier == "quick" else 30000
 
 
 def budget_s(tier):
